@@ -154,6 +154,9 @@ func (ex *Exec) lookup(fr *Frame, x *ssa.Lookup) Value {
 			}
 			return ex.tt.BV(uint64(c[i]), 8)
 		}
+		if cp, _ := constPrefix(s); i >= 0 && i < len(cp) {
+			return ex.tt.BV(uint64(cp[i]), 8)
+		}
 	}
 	panic(ex.unsupported("lookup on %T", v))
 }
@@ -345,7 +348,21 @@ func (ex *Exec) strLenBV(s *Term) *Term {
 	if c, ok := s.StrVal(); ok {
 		return tt.BV(uint64(len(c)), 64)
 	}
-	return tt.mk("(_ int2bv 64)", SBV64, "", 0, tt.StrLen(s))
+	// constant prefix + symbolic rest: len = k + len(rest)
+	if cp, _ := constPrefix(s); cp != "" {
+		if rest, ok := stripPrefix(tt, s, cp); ok {
+			return tt.Add(tt.BV(uint64(len(cp)), 64), ex.strLenBV(rest))
+		}
+	}
+	// the length of a symbolic string is an uninterpreted value in [0, 2^62) that is 0 exactly for ""
+	// (sound over-approximation; avoids the string-length / bit-vector theory combination)
+	if l, ok := ex.W.lenOf[s.id]; ok {
+		return l
+	}
+	l := tt.Var("len", SBV64)
+	ex.W.lenOf[s.id] = l
+	ex.addPC(tt.And(tt.SLe(tt.BV(0, 64), l), tt.SLt(l, tt.BV(1<<62, 64)), tt.Eq(tt.Eq(l, tt.BV(0, 64)), tt.Eq(s, tt.Str("")))))
+	return l
 }
 
 func (ex *Exec) appendOp(a, b Value) Value {
